@@ -425,8 +425,10 @@ def _mcp_check(tier, seed):
             kind_, _ = digest_of(resp[rid])
             txt = resp[rid].get('result', {}).get('content', [{}])[0].get('text', '') if kind_ == 'result' else ''
             if k.startswith('bx_') and kind_ != 'result':
-                findings.append({'prop': 'C07', 'kind': 'mcp_explain_boundary', 'case': 0, 'input': d, 'data': {},
-                                 'detail': f'explain_matching cannot find the disposal of {d} (tax year {want[d]}/{(want[d] + 1) % 100:02d}): {json.dumps(resp[rid])[:200]}'})
+                # a matter of tax years (C07), of front-ends listing the same disposals (C17) and of explain covering every listed disposal (C20)
+                for pr in ('C07', 'C17', 'C20'):
+                    findings.append({'prop': pr, 'kind': 'mcp_explain_boundary', 'case': 0, 'input': d, 'data': {},
+                                     'detail': f'explain_matching cannot find the disposal of {d} (tax year {want[d]}/{(want[d] + 1) % 100:02d}) that calculate_report lists: {json.dumps(resp[rid])[:200]}'})
             if k.startswith('by_') and (kind_ != 'result' or f'"date": "{d}"' not in txt):
                 findings.append({'prop': 'C07', 'kind': 'mcp_year_boundary', 'case': 0, 'input': d, 'data': {},
                                  'detail': f'calculate_report(year={want[d]}) does not list the disposal of {d}'})
